@@ -107,6 +107,14 @@ func (e *Engine) intrinsic(fn *ssa.Function, args []Value) (Value, bool) {
 		return h(e, args), true
 	}
 	switch name {
+	case "encoding/json.Unmarshal":
+		if doc, ok := args[0].(*JSONVal); ok {
+			return e.jsonUnmarshal(doc, args[1].(Iface)), true
+		}
+		if sl, ok := args[0].(Slice); ok && sl.O == nil {
+			return e.newErr("unexpected end of JSON input", nil, false), true
+		}
+		panic(abort{"encoding/json.Unmarshal on bytes the harness did not build with JSONBytes"})
 	case "errors.New":
 		return e.newErr(args[0], nil, false), true
 	case "fmt.Errorf", "fmt.Sprintf":
